@@ -3,7 +3,10 @@ package vanguard
 import (
 	"bytes"
 	"net/http"
+	"net/url"
 	"strconv"
+
+	"google.golang.org/genproto/googleapis/api/annotations"
 )
 
 // symbolicStream: n symbolic bytes laid out as frames would be (flag, 4 length bytes, payload...),
@@ -513,4 +516,60 @@ func hC09UnaryReq() {
 		verifReach("backend-invoked")
 		verifAssert(wb.rec.readErr != nil, "C09: a backend without envelopes never reads a clean end of body for a request the client did not send completely or decodably")
 	}
+}
+
+// hC09RestGetTail: an enveloped client calling a unary method whose REST binding has no body (GET): the one
+// request message is consumed to build the request line and nothing of the client's body is passed on. What
+// follows that message in the client's stream must still count: a second message, an envelope with invalid
+// flags or a cut envelope is a malformed request and must not end as a success.
+func hC09RestGetTail() {
+	rules := []*annotations.HttpRule{{Selector: pipeSvc + "." + pipeMethod, Pattern: &annotations.HttpRule_Get{Get: "/v3/{name}/x"}}}
+	f := newRestFixture(ProtocolREST, rules)
+	verifAssert(f != nil, "REST rule accepted")
+	if f == nil {
+		return
+	}
+	// (the backend's answer: an empty message in the field-carrying text encoding, "{" 0x01 "}")
+	f.backend.script = &respScript{msgs: []wireMsg{{abstract: []byte{toyFieldMarkText ^ 0x20}}}}
+	msg := &fakeMsg{}
+	msg.fvals[0], msg.fset[0] = "n", true
+	stream := appendFrame(nil, 0, toyAppendFields(false, nil, msg))
+	tail := verifChoose("tail", 4)
+	switch tail {
+	case 1:
+		stream = appendFrame(stream, 0, toyAppendFields(false, nil, msg))
+	case 2:
+		stream = append(stream, nondetBytes("flags", 1)[0], 0, 0, 0, 0)
+		verifAssume(stream[len(stream)-5] > 1)
+	case 3:
+		stream = append(stream, 0, 0, 0)
+	}
+	ct := []string{"application/grpc+proto", "application/grpc-web+proto"}[verifChoose("client", 2)]
+	req := &http.Request{Method: "POST", URL: &url.URL{Path: pipePath}, Proto: "HTTP/2", ProtoMajor: 2, Header: http.Header{"Content-Type": {ct}},
+		Body: &fakeBody{data: stream}, ContentLength: -1}
+	f.tr.ServeHTTP(f.sink, req)
+	status := f.sink.hdr.Get("Grpc-Status")
+	if status == "" {
+		status = f.sink.trailers().Get("Grpc-Status")
+	}
+	if status == "" && ct == "application/grpc-web+proto" {
+		// gRPC-Web: the status is in the trailers frame of the body
+		frames, _ := refSplitFrames(f.sink.body)
+		for _, fr := range frames {
+			if fr.flags&0x80 != 0 {
+				if h, ok := splitTrailerBlock(fr.payload); ok {
+					status = h.Get("Grpc-Status")
+				}
+			}
+		}
+	}
+	verifObsStr("grpc-status", status)
+	verifObsInt("calls", int64(f.backend.rec.calls))
+	verifReach("rest-get-backend")
+	if tail == 0 {
+		verifAssert(f.backend.rec.calls == 1 && status == "0", "C09: a well-formed unary call to a REST GET binding succeeds")
+		return
+	}
+	verifReach("faulty-tail")
+	verifAssert(status != "" && status != "0", "C09: a request stream that is malformed behind its first message never surfaces as success, also when the backend is not handed a body")
 }
